@@ -142,9 +142,14 @@ type Callbacks struct {
 	CmpFailed  bool
 	HipFailed  bool
 	YieldEvery int
+
+	// HipClasses > 0: the hash-input provider maps every key onto one of that many hash inputs (a caller whose hash
+	// input covers only part of the key). Under the library's DEFAULT digester all keys of a class then collide on
+	// every digest level; only the comparator tells them apart. Survives Reset.
+	HipClasses uint64
 }
 
-func (c *Callbacks) Reset() { *c = Callbacks{} }
+func (c *Callbacks) Reset() { *c = Callbacks{HipClasses: c.HipClasses} }
 
 func (c *Callbacks) Compare(storage atree.SlabStorage, v atree.Value, s atree.Storable) (bool, error) {
 	c.CmpCalls++
@@ -161,7 +166,15 @@ func (c *Callbacks) HashInput(v atree.Value, buf []byte) ([]byte, error) {
 		c.HipFailed = true
 		return nil, ErrCallback
 	}
-	return tu.GetHashInput(v, buf)
+	msg, err := tu.GetHashInput(v, buf)
+	if err != nil || c.HipClasses == 0 {
+		return msg, err
+	}
+	h := hashBytes(msg) % c.HipClasses
+	out := make([]byte, 9)
+	out[0] = 0xC1
+	putUint64(out[1:], h)
+	return out, nil
 }
 
 // ---------------------------------------------------------------------------------------------
